@@ -1,4 +1,4 @@
-import CfbVerif.Handle.Model
+import CfbVerif.Handle.Faults
 import CfbVerif.Drv.Util
 /-! `driver handle`: replay a handle script (C06) on the model. -/
 namespace CfbVerif.Drv.Handle
@@ -56,6 +56,59 @@ def stepLine (s : St) (line : String) : St × String :=
       let s' : St := { s with h := h1, st := st1 }
       (s', showOut o ++ " | " ++ showState s')
     | none => (s, "bad-op")
+
+/-! ### `driver handlef`: scripts with fault annotations (` F flush|refill|resize`), coarse results -/
+
+def splitFault (ws : List String) : List String × Fault :=
+  match ws.reverse with
+  | "flush" :: "F" :: rest => (rest.reverse, .flush)
+  | "refill" :: "F" :: rest => (rest.reverse, .refill)
+  | "resize" :: "F" :: rest => (rest.reverse, .resize)
+  | _ => (ws, .none)
+
+def coarse : Out → String
+  | .err .other => "ioerr"
+  | .err .invalidInput => "err"
+  | .panic => "panic"
+  | _ => "ok"
+
+/-- `write_all` under a fault: the loop of `write` calls; the fault fires in the first call that
+reaches its phase, and the loop stops there -/
+def writeAllF : Nat → H → Bytes → Fault → Bytes → H × Bytes × Out
+  | 0, h, st, _, _ => (h, st, .unit)
+  | fuel + 1, h, st, ft, bs =>
+    if bs.isEmpty then (h, st, .unit) else
+    match stepF h st ft (.write bs) with
+    | (h1, st1, .num k) => if k = 0 then (h1, st1, .unit) else writeAllF fuel h1 st1 ft (bs.drop k)
+    | (h1, st1, o) => (h1, st1, o)
+
+def stepLineF (s : St) (line : String) : St × String :=
+  match words line with
+  | ["new", _v, m, c] =>
+    match m.toNat? with
+    | some m =>
+      let c := bytesOfHex c
+      let s' : St := { h := H.new c.length m, st := c, live := true }
+      (s', "unit | " ++ showState s')
+    | none => (s, "bad-op")
+  | ws =>
+    let (ws', ft) := splitFault ws
+    match ws' with
+    | ["writeall", hx] =>
+      let bs := bytesOfHex hx
+      let (h1, st1, o) := writeAllF (bs.length + 1) s.h s.st ft bs
+      let s' : St := { s with h := h1, st := st1 }
+      (s', coarse o ++ " | " ++ showState s')
+    | _ =>
+    match parseOp ws' with
+    | some op =>
+      let (h1, st1, o) := stepF s.h s.st ft op
+      let s' : St := { s with h := h1, st := st1 }
+      (s', coarse o ++ " | " ++ showState s')
+    | none => (s, "bad-op")
+
+def mainF : IO Unit := do
+  lineLoop (← IO.getStdin) (← IO.getStdout) ({ h := H.new 0 0, st := [], live := false } : St) stepLineF
 
 def main : IO Unit := do
   let stdin ← IO.getStdin
